@@ -160,7 +160,7 @@ func (c *c10Cast) run(cfg c10Cfg, hist []int) (out c10Run) {
 				}
 			}
 		}
-		for _, e := range hist {
+		step := func(e int) (abort bool) {
 			name := events[e]
 			switch {
 			case strings.HasPrefix(name, "hs("):
@@ -211,7 +211,7 @@ func (c *c10Cast) run(cfg c10Cfg, hist []int) (out c10Run) {
 				u, s := inner[:i], inner[i+1:]
 				if state[u] == s {
 					out.key = ""
-					return
+					return true
 				}
 				state[u] = s
 				switch s {
@@ -231,7 +231,7 @@ func (c *c10Cast) run(cfg c10Cfg, hist []int) (out c10Run) {
 			case name == "bgfetch-completes":
 				if vsched.HeldCount("IsRevoked") == 0 {
 					out.key = ""
-					return
+					return true
 				}
 				vsched.ReleaseSite("IsRevoked")
 				if pendingBg > 0 {
@@ -252,6 +252,12 @@ func (c *c10Cast) run(cfg c10Cfg, hist []int) (out c10Run) {
 				w = mk()
 				vsched.SetHoldSpawns(true)
 			}
+					return false
+		}
+		for _, e := range hist {
+			if step(e) {
+				return
+			}
 		}
 		var st []string
 		for _, u := range urls {
@@ -265,6 +271,13 @@ func (c *c10Cast) run(cfg c10Cfg, hist []int) (out c10Run) {
 		ids, tmps, other := ListDir(dir)
 		ents = append(ents, fmt.Sprintf("dir:%d/%d/%d/%s", len(ids), len(tmps), len(other), dirDigest(dir)))
 		out.key = fmt.Sprintf("srv=%v ref=%v/%v/%d/%v impl=%v held=%d", st, refKnown, refLoaded, pendingBg, diskAccepted, ents, len(vsched.Held()))
+		// final observation (after the key was taken): both handshakes judged at the end of every history, also of one
+		// that is merged into a state seen before (hidden state the reference does not model would vanish with it)
+		if n := len(hist); n > 0 && !strings.HasPrefix(events[hist[n-1]], "hs(") {
+			out.trace = append(out.trace, "final:")
+			step(0)
+			step(1)
+		}
 		vsched.ReleaseAll()
 		w.Chk.Cleanup()
 	})
